@@ -170,9 +170,9 @@ PROPS = {
         "harnesses": [
             H("bc_fill_2_a", cost=290, timeout_q=900, **BC), H("bc_add_keyed", cost=120, **BC), H("bc_budget_two_rounds", cost=100, **BC),
             H("c07_send_pb_17", cost=75), H("a_apply1_k1", cost=120), H("c01_idempotent", cost=130),
-            H("c15_key_same_addr", cost=60, entry="Foca::handle_apply_summary x3 on the real backlog (no stubs)"), H("c15_key_diff_addr", cost=60), H("c15_key_returning", cost=60), H("bc_fill_1", cost=80, **BC), H("e4_message_gates_smt", engine="smt", group="gates", cost=80, entry="Message::{needs_piggyback, allow_custom_broadcasts, piggyback_only_active} (MIR -> SMT-LIB2, z3 + cvc5)", bounds="all 11 message kinds; 6 queries x 2 solvers"),
+            H("c15_key_same_addr", cost=60, entry="Foca::handle_apply_summary x3 on the real backlog (no stubs)"), H("c15_key_diff_addr", cost=60), H("c15_key_returning", cost=60), H("c15_gossip_real", cost=60, entry="Foca::gossip x3 on the real backlog and the real send buffer (no stubs)"), H("bc_fill_1", cost=80, **BC), H("e4_message_gates_smt", engine="smt", group="gates", cost=80, entry="Message::{needs_piggyback, allow_custom_broadcasts, piggyback_only_active} (MIR -> SMT-LIB2, z3 + cvc5)", bounds="all 11 message kinds; 6 queries x 2 solvers"),
             H("t_gossip_idle", tier=T), H("bc_fill_2_b", tier=T, cost=300, **BC), H("bc_fill_3_a", tier=T, cost=900, timeout_t=1800, **BC), H("bc_fill_3_b", tier=T, cost=900, timeout_t=1800, **BC),
-            H("bc_fill_3_c", tier=T, cost=900, timeout_t=1800, **BC), H("bc_fill_real_buffer", tier=T, **BC), H("t_gossip", tier=T, cost=200), H("c07_send_pb_22", tier=T, cost=130),
+            H("bc_fill_3_c", tier=T, cost=900, timeout_t=1800, **BC), H("bc_fill_real_buffer_short", tier=T, cost=450, **BC), H("t_gossip", tier=T, cost=200), H("c07_send_pb_22", tier=T, cost=130),
             H("c07_send_feed_17", tier=T), H("c07_send_bare_10", tier=T), H("a_gossip", tier=T, cost=90), H("t_probe_k2", tier=T),
         ],
     },
@@ -240,7 +240,7 @@ PROPS = {
     },
 }
 
-DEV = ["c07_send_feed_fail_first","c07_send_feed_fail_second","c16_broadcast_empty"]
+DEV = ["c15_gossip_real"]
 PROPS["DEV"] = {"level": "model_checking", "harnesses": [H(n, engine=("bcast" if n.startswith("bc_") else "codec" if n.startswith("c20_") or n.startswith("c06_config") else "incrate")) for n in DEV]}
 
 HOOK_COMMITS = ["2dd5aa0"]
